@@ -2,7 +2,7 @@
    regular expressions: one word, comma-separated prefix form
      r<lo>:<hi>  n  B E F  q<k>,<k children>  a<k>,<k children>  p,<child>  c0,<child> c1,<child>
    commands
-     lex <re> ...           build NFA + DFA of the lexicon, keep them; "ok <nfa states> <dfa states> <else_ok>"
+     lex <re> ...           build NFA + DFA of the lexicon, keep them; "ok <nfa states> <dfa states> <nfa_ok && nfa_bounded>"
      nfa                    dump of the kept NFA
      dfa                    dump of the kept DFA
      scan <hex text> <n>    up to n read() calls on the kept DFA
@@ -83,7 +83,7 @@ let handle = function
             | None -> "!FUEL-dfa"
             | Some d -> cur_dfa := Some d;
                 Printf.sprintf "ok %d %d %s" (List.length m) (List.length d.dfa_sets)
-                  (string_of_bool (nfa_ok m))))
+                  (string_of_bool (nfa_ok m && nfa_bounded m))))
   | ["nfa"] -> String.concat ";" (List.map str_nstate !cur_nfa)
   | ["dfa"] ->
       (match !cur_dfa with None -> "!nodfa" | Some d ->
